@@ -52,7 +52,9 @@ fn main() {
     let code = dispatch!(args[0].as_str(), args,
         "C01" => c01,
         "C02" => c02,
+        "C04" => c04,
         "C06" => c06,
+        "C10" => c10,
         "C12" => c12,
         "C15" => c15,
         "C16" => c16,
